@@ -316,7 +316,7 @@ func runScript(s script) *result {
 	case "readFail":
 		fc.failReadAt = int32(s.K)
 	}
-	if s.Place == "blockedFull" || s.Event == "localCloseStalled" {
+	if s.Place == "blockedFull" || s.Event == "localCloseStalled" || s.Event == "slowWrite" {
 		fc.blockAt = 1
 	}
 	fc.slowClose = s.Event == "localCloseReason" && s.K == 1
@@ -429,6 +429,14 @@ func runScript(s script) *result {
 			}(w)
 		}
 	}
+	if s.Event == "slowWrite" {
+		// the first transport write takes 2.4 s (the peer reads slowly); the writers go on writing: whoever finds the queue full
+		// waits; nothing closes the connection, so everything arrives
+		go func() { time.Sleep(2400 * time.Millisecond); close(fc.release) }()
+		startWriters(1)
+		wg.Wait()
+		time.Sleep(60 * time.Millisecond)
+	}
 	switch s.Place {
 	case "start":
 		event()
@@ -441,8 +449,10 @@ func runScript(s script) *result {
 		event()
 		wg.Wait()
 	case "idle":
-		startWriters(1)
-		wg.Wait()
+		if s.Event != "slowWrite" {
+			startWriters(1)
+			wg.Wait()
+		}
 		time.Sleep(20 * time.Millisecond) // everything accepted is on the wire
 		event()
 		time.Sleep(20 * time.Millisecond)
